@@ -37,6 +37,15 @@ SafeIdent(cls) == \A k \in 1..Len(cls) : cls[k] \in {"letter", "digit", "undersc
 \* what may reach the database: nothing unless the identifier is safe; then exactly one SELECT of that table
 SqlOk(identSafe, statements) == IF identSafe THEN \A k \in 1..Len(statements) : statements[k] = "select_star_from_ident" ELSE statements = <<>>
 
+\* ---- join-table lookup (rbql_csv.find_table_path): where a table id of the query text is looked for ------------
+\* e = [direct, maindir, index]: does the id exist as a path (after ~ expansion) / relative to the input file's directory /
+\* as a key of ~/.rbql_table_names pointing to an existing file;  abs: the id is an absolute path;  hasdir: an input directory is known
+ResolveTable(e, abs, hasdir) ==
+    IF e.direct THEN "direct"
+    ELSE IF hasdir /\ ~abs /\ e.maindir THEN "maindir"
+    ELSE IF e.index THEN "index"
+    ELSE "none"                                  \* -> IO-handling error "Unable to find join table"
+
 --------------------------------------------------------------------------
 (* query_csv as a machine *)
 
